@@ -53,13 +53,13 @@ def run(ctx):
     # input whose size the peer chooses (FaultCases.tla, Unbounded): the memory the proxy keeps for it is bounded
     out = ctx.run_vh(binp, ["c12-mem"], timeout=1200)
     out, crashed = ctx.nocrash(out, "C12:crash:unbounded-input")
-    if not crashed and len(out) != 2:
+    if not crashed and len(out) != 3:
         raise vlib.Infra("c12-mem: %d results" % len(out))
     for r in out:
         ctx.evaluations += 1
         ctx.nontrivial.add("mem:" + r["input"])
         if not r["ok"]:
-            ctx.violation("C12:memory-in-proportion-to-input:" + ("request-head" if "head" in r["input"] else "connect-rejection-body"), r)
+            ctx.violation("C12:memory-in-proportion-to-input:" + ("request-head" if "head" in r["input"] else "request-methods" if "methods" in r["input"] else "connect-rejection-body"), r)
         else:
             ctx.traces_ok += 1
 
